@@ -48,6 +48,7 @@ HELPERS = [
     slice_of("lowerRational", "const Rational& " + P + "lowerRational(int i) const", ["_rationalLP->lower\\(i\\)"]),
     slice_of("upperRational", "const Rational& " + P + "upperRational(int i) const", ["_rationalLP->upper\\(i\\)"]),
     slice_of("objRational", "Rational " + P + "objRational(int i) const", ["_rationalLP->obj\\(i\\)"]),
+    slice_of("maxObjRational", "const Rational& " + P + "maxObjRational(int i) const", ["_rationalLP->maxObj\\(i\\)"]),
     slice_of("_rangeTypeReal", "typename SoPlexBase<R>::RangeType " + P + "_rangeTypeReal(const R& lower, const R& upper) const"),
     slice_of("_rangeTypeRational", "typename SoPlexBase<R>::RangeType " + P + "_rangeTypeRational(const Rational& lower, const Rational& upper) const"),
     slice_of("_invalidateSolution", "void " + P + "_invalidateSolution()", ["_hasSolReal = false", "_hasSolRational = false"]),
@@ -90,6 +91,10 @@ CONFORMANCE = [
      "why": "LP stub signature: addRow(lhs, vector, rhs, scale)"},
     {"file": "src/soplex/lpcolbase.h", "regex": r"LPColBase\(const R& p_obj, const SVectorBase<R>& p_vector, const R& p_upper, const R& p_lower\)",
      "why": "LPColBase field meaning"},
+    {"file": "src/soplex/spxlpbase.h", "regex": r"void addCol\(const S\* objValue, const S\* lowerValue, const S\* colValues, const int\* colIndices,\s*int colSize, const S\* upperValue\)\s*\{.*?if\(thesense != MAXIMIZE\)\s*LPColSetBase<R>::maxObj_w\(idx\) \*= -1;",
+     "why": "GMP addCol: parameter order, and the objective is stored for maximization (model: maxObj = sense == MAXIMIZE ? obj : -obj)"},
+    {"file": "src/soplex/spxlpbase.h", "regex": r"void addRow\(const S\* lhsValue, const S\* rowValues, const int\* rowIndices, int rowSize,\s*const S\* rhsValue\)",
+     "why": "GMP addRow: parameter order"},
     {"file": "src/soplex/dataset.h", "regex": r"if\(perm\[k\] >= 0\)\s*// j has not been removed ...\s*perm\[k\] = j\+\+;",
      "why": "DataSet::remove(int perm[]) is an order-preserving compaction that leaves negative marks untouched (LP stub removeRows/removeCols)"},
     {"file": "src/soplex/spxlpbase.h", "regex": r"template < class S >\s*void changeLhs\(int i, const S\* newLhs\)\s*\{\s*LPRowSetBase<R>::lhs_w\(i\) = \*newLhs;",
@@ -124,7 +129,7 @@ class T:
 
 
 def inst(name, function, sig, kind, prologue, defines=None, props=("C06", "C07"), loops=None, mutants=None,
-         must=None, tier="quick", extra_slices=None, unwind=None, unwind_loops=None, ret=None, minob=40, finding=False):
+         must=None, tier="quick", extra_slices=None, unwind=None, unwind_loops=None, ret=None, minob=300, finding=False):
     d = {"SLICE": '"%s.inc"' % name, "KINDFILE": '"k_%s.h"' % kind, "PROLOGUE": prologue or ";"}
     if ret:
         d["RET"] = ret
@@ -422,6 +427,10 @@ inst("int_addColReal4", "SoPlexBase<R>::_addColReal(R obj, R lower, const SVecto
      "void " + P + "_addColReal(R obj, R lower, const SVectorBase<R>& lpcol, R upper)", "int_add",
      "R obj = a_r3; R lower = a_r1; const SVectorBase<R>& lpcol = *a_svr; R upper = a_r2;", {"ADD_COL4": "", "CODE": "M_addCol4"}, props=IP, finding=True,
      mutants=[mut("no_lu_clear", "int_addColReal4", *LU_MUT)])
+inst("int_addColReal4_nokept", "SoPlexBase<R>::_addColReal(R obj, R lower, const SVectorBase<R>& lpcol, R upper)  [restricted: no basis kept outside the solver]",
+     "void " + P + "_addColReal(R obj, R lower, const SVectorBase<R>& lpcol, R upper)", "int_add",
+     "R obj = a_r3; R lower = a_r1; const SVectorBase<R>& lpcol = *a_svr; R upper = a_r2;", {"ADD_COL4": "", "CODE": "M_addCol4", "NOKEPT": ""}, props=IP,
+     mutants=[mut("no_lu_clear", "int_addColReal4_nokept", *LU_MUT), mut("swap_bounds", "int_addColReal4_nokept", "addCol(obj, lower, lpcol, upper, scale)", "addCol(obj, upper, lpcol, lower, scale)")])
 inst("int_addColsReal", "SoPlexBase<R>::_addColsReal(const LPColSetReal& lpcolset)", "void " + P + "_addColsReal(const LPColSetReal& lpcolset)", "int_add",
      "const LPColSetReal& lpcolset = *a_csetr;", {"ADD_COLS": "", "CODE": "M_addCols"}, props=IP,
      loops=[loop(0, ["i"], ["0 <= i && i <= g_n", "*gp_bsc_size == g_nbc + i",
@@ -440,6 +449,10 @@ inst("int_changeColReal", "SoPlexBase<R>::_changeColReal(int i, const LPColReal&
               mut("wrong_status", "int_changeColReal", "SPxSolverBase<R>::ON_UPPER : SPxSolverBase<R>::ZERO", "SPxSolverBase<R>::ON_LOWER : SPxSolverBase<R>::ZERO")])
 inst("int_changeElementReal", "SoPlexBase<R>::_changeElementReal(int i, int j, const R& val)", "void " + P + "_changeElementReal(int i, int j, const R& val)", "int_elem",
      "int i = a_i; int j = a_j; const R& val = a_r1;", {}, props=IP, finding=True, mutants=[mut("no_lu_clear", "int_changeElementReal", *LU_MUT)])
+inst("int_changeElementReal_nokept", "SoPlexBase<R>::_changeElementReal(int i, int j, const R& val)  [restricted: no basis kept outside the solver]",
+     "void " + P + "_changeElementReal(int i, int j, const R& val)", "int_elem",
+     "int i = a_i; int j = a_j; const R& val = a_r1;", {"NOKEPT": ""}, props=IP,
+     mutants=[mut("no_lu_clear", "int_changeElementReal_nokept", *LU_MUT), mut("swap_ij", "int_changeElementReal_nokept", "changeElement(i, j, val, scale)", "changeElement(j, i, val, scale)")])
 
 for fn, isrow, code in [("_removeRowReal", True, "M_removeRow"), ("_removeColReal", False, "M_removeCol")]:
     nm = "int" + fn
@@ -454,6 +467,9 @@ for fn, isrow, code in [("_removeRowReal", True, "M_removeRow"), ("_removeColRea
     inst(nm, "SoPlexBase<R>::%s(int perm[])  [bounded: <= CAP rows/columns, loops unwound]" % f2, "void " + P + "%s(int perm[])" % f2, "int_rmperm",
          "int* perm = a_perm;", dict(dd, CODE=code + "s"), props=IP, finding=True, unwind_loops=[{"function": BODY, "loop": 0}],
          mutants=[mut("no_lu_clear", nm, *LU_MUT)])
+    inst(nm + "_nokept", "SoPlexBase<R>::%s(int perm[])  [restricted: no basis kept outside the solver; bounded: <= CAP]" % f2, "void " + P + "%s(int perm[])" % f2, "int_rmperm",
+         "int* perm = a_perm;", dict(dd, CODE=code + "s", NOKEPT=""), props=IP, unwind_loops=[{"function": BODY, "loop": 0}],
+         mutants=[mut("no_lu_clear", nm + "_nokept", *LU_MUT), mut("no_forward", nm + "_nokept", "_realLP->remove", "if(false) _realLP->remove")])
 
 inst("int_setBasis", "SoPlexBase<R>::setBasis(const VarStatus rows[], const VarStatus cols[])",
      "void " + P + "setBasis(const typename SPxSolverBase<R>::VarStatus rows[], const typename SPxSolverBase<R>::VarStatus cols[])", "int_basis",
@@ -576,8 +592,23 @@ for fn, isrow, code in [("removeRowRational", True, "M_removeRow"), ("removeColR
          "int* perm = a_perm;", dict(dd, CODE=code + "s"), props=RP, unwind_loops=[{"function": BODY, "loop": 0}, {"function": BODY, "loop": 1}],
          mutants=[mut("no_early_return", nm, *ONLY_MUT), mut("no_sync", nm, *SYNC_MUT), mut("wrong_guard", nm, "if(perm[i] >= 0)", "if(perm[i] > 0)")])
 
+inst("rat_addRowRational_gmp", "SoPlexBase<R>::addRowRational(const mpq_t* lhs, const mpq_t* rowValues, const int* rowIndices, const int rowSize, const mpq_t* rhs)",
+     "void " + P + "addRowRational(const mpq_t* lhs, const mpq_t* rowValues, const int* rowIndices, const int rowSize, const mpq_t* rhs)", "rat_addgmp",
+     "const mpq_t* lhs = a_m1; const mpq_t* rowValues = a_mv; const int* rowIndices = a_idx; const int rowSize = a_n; const mpq_t* rhs = a_m2;", {"ADD_ROW": ""}, props=RP,
+     mutants=[mut("no_early_return", "rat_addRowRational_gmp", *ONLY_MUT), mut("no_sync", "rat_addRowRational_gmp", *SYNC_MUT),
+              mut("swap_sides", "rat_addRowRational_gmp", "R(lhsRational(i)), DSVectorBase", "R(rhsRational(i)), DSVectorBase")])
+inst("rat_addColRational_gmp", "SoPlexBase<R>::addColRational(const mpq_t* obj, const mpq_t* lower, const mpq_t* colValues, const int* colIndices, const int colSize, const mpq_t* upper)",
+     "void " + P + "addColRational(const mpq_t* obj, const mpq_t* lower, const mpq_t* colValues, const int* colIndices, const int colSize, const mpq_t* upper)", "rat_addgmp",
+     "const mpq_t* obj = a_m3; const mpq_t* lower = a_m1; const mpq_t* colValues = a_mv; const int* colIndices = a_idx; const int colSize = a_n; const mpq_t* upper = a_m2;", {"ADD_COL": ""}, props=RP,
+     mutants=[mut("no_early_return", "rat_addColRational_gmp", *ONLY_MUT), mut("no_sync", "rat_addColRational_gmp", *SYNC_MUT),
+              mut("swap_bounds", "rat_addColRational_gmp", "R(lowerRational(i)), DSVectorBase", "R(upperRational(i)), DSVectorBase"),
+              mut("wrong_sense", "rat_addColRational_gmp", "? 1.0 : -1.0", "? -1.0 : 1.0")])
 inst("rat_clearLPRational", "SoPlexBase<R>::clearLPRational()", "void " + P + "clearLPRational()", "pub_clear", "", {"RATIONAL": ""}, props=("C07", "C06", "C11"), finding=True,
      mutants=[mut("no_sync", "rat_clearLPRational", *SYNC_MUT)])
+inst("rat_clearLPRational_notonlyreal", "SoPlexBase<R>::clearLPRational()  [restricted: sync mode AUTO or MANUAL]", "void " + P + "clearLPRational()", "pub_clear", "",
+     {"RATIONAL": "", "NOT_ONLYREAL": ""}, props=("C07", "C06", "C11"),
+     mutants=[mut("no_sync", "rat_clearLPRational_notonlyreal", *SYNC_MUT), mut("no_lu_clear", "rat_clearLPRational_notonlyreal", "_rationalLUSolver.clear();", ";"),
+              mut("keep_types", "rat_clearLPRational_notonlyreal", "_rowTypes.clear();", ";")])
 
 
 # ------------------------------------------------------------------------------------------------
